@@ -90,13 +90,15 @@ inline muscle::MessageRef GenMessage(uint64_t gseed, int cls, int shapeOverride 
          const uint32 drawn = r.below(10); const uint32 shape = (shapeOverride >= 0) ? ((uint32) shapeOverride % 10) : drawn;
          Rng sr(shape*7919+1, "shape");   // the shape depends on the shape number only
          MessageRef m = GetMessageFromPool(shape);
+         // (now and then a field that is never serialised -- a pointer -- sits in front of the others: it must not count for the template the two ends agree on)
+         if (r.oneIn(5)) {static int dummy = 0; (void) m()->AddPointer("ptr", &dummy);}
          const int nf = 1 + (int) sr.below(5);
          for (int i=0; i<nf; i++)
          {
             char fn[16]; snprintf(fn, sizeof(fn), "f%d", i);
             switch(sr.below(6))
             {
-               case 0: (void) m()->AddInt32(fn, (int32) r.below(4)); break;
+               case 0: (void) m()->AddInt32(fn, (int32) r.below(4)); if (r.oneIn(4)) {const int more = 1 + (int) r.below(2); for (int q=0; q<more; q++) (void) m()->AddInt32(fn, (int32) r.below(4));} break;   /* the same field name and type with a different NUMBER of values is a different template */
                case 1: (void) m()->AddString(fn, r.oneIn(2) ? "the same string every time, more or less" : "another fairly common string"); break;
                case 2: (void) m()->AddInt64(fn, (int64) r.below(3)); (void) m()->AddInt64(fn, 5); break;
                case 3:
